@@ -52,7 +52,94 @@ def ddmin_list(mod, case, path, oracle, deadline):
     return case
 
 
+def _run(mod, case):
+    from . import runner
+    try:
+        return runner.run_one(mod, case)
+    except BaseException:       # noqa: B902
+        return None
+
+
+def _switches(sched):
+    """Number of context switches an explicit schedule asks for."""
+    n = 0
+    last = None
+    for x in sched:
+        if x >= 0 and x != last:
+            n += 1
+            last = x
+    return n
+
+
+def minimise_schedule(mod, case, oracle, deadline):
+    """For cases run under the task scheduler: make the schedule explicit
+    (the list of task choices the seeded strategy made) and minimise it --
+    cut its tail, then replace runs of choices by -1 ("stay with the
+    running task") -- while the same violation class persists.  The
+    replay file then carries the minimised schedule itself."""
+    if case.get('schedule') is not None:
+        return case
+    res = _run(mod, case)
+    if not res or not res.get('schedule'):
+        return case
+    if not any(v['oracle'] == oracle for v in res.get('violations', ())):
+        return case
+    sched = list(res['schedule'])
+    c2 = dict(case, schedule=sched)
+    if not _fails(mod, c2, oracle):
+        return case             # (does not happen: replay is exact)
+    # 1. shortest failing prefix (binary search, then verify)
+    lo, hi = 0, len(sched)
+    while lo < hi and time.time() < deadline:
+        mid = (lo + hi) // 2
+        if _fails(mod, dict(case, schedule=sched[:mid]), oracle):
+            hi = mid
+        else:
+            lo = mid + 1
+    if hi < len(sched) and _fails(mod, dict(case, schedule=sched[:hi]),
+                                  oracle):
+        sched = sched[:hi]
+    # 2. chunks of choices -> "stay"
+    n = 2
+    while sched and time.time() < deadline:
+        chunk = max(1, len(sched) // n)
+        changed = False
+        i = 0
+        while i < len(sched) and time.time() < deadline:
+            seg = sched[i:i + chunk]
+            if any(x != -1 for x in seg):
+                cand = sched[:i] + [-1] * len(seg) + sched[i + chunk:]
+                if _fails(mod, dict(case, schedule=cand), oracle):
+                    sched = cand
+                    changed = True
+            i += chunk
+        if chunk == 1:
+            break
+        if not changed or True:
+            n = min(len(sched), n * 2)
+    while sched and sched[-1] == -1:
+        sched.pop()
+    out = dict(case, schedule=sched)
+    out['schedule_note'] = ('explicit schedule: task index chosen at each '
+                            'decision with more than one runnable task; '
+                            '-1 or past the end = stay with the running '
+                            'task; %d of %d decisions left, %d switches '
+                            'requested' % (len([x for x in sched if x >= 0]),
+                                           len(res['schedule']),
+                                           _switches(sched)))
+    return out
+
+
 def shrink(mod, case, violation, deadline):
+    case = _shrink(mod, case, violation, deadline)
+    try:
+        return minimise_schedule(mod, case, violation['oracle'],
+                                 deadline + 30)
+    except Exception:           # noqa: B902 -- minimisation is best effort
+        return case
+
+
+def _shrink(mod, case, violation, deadline):
     oracle = violation['oracle']
     case = copy.deepcopy(case)
     paths = [tuple(p) if isinstance(p, (list, tuple)) else (p,)
@@ -64,6 +151,15 @@ def shrink(mod, case, violation, deadline):
             except (KeyError, IndexError, TypeError):
                 continue
             case = ddmin_list(mod, case, path, oracle, deadline)
+            # a list of lists (one script per client): each inner list
+            try:
+                inner = _get(case, path)
+            except (KeyError, IndexError, TypeError):
+                continue
+            for i, item in enumerate(inner):
+                if isinstance(item, list) and len(item) > 1:
+                    case = ddmin_list(mod, case, path + (i,), oracle,
+                                      deadline)
         # second level: lists inside ops (records of a transaction)
         for path in paths:
             try:
